@@ -348,11 +348,19 @@ class Normalizer:
         if c.get("ikind") != "item" or not c.get("resolved") or t.get("target") is None:
             return False
         deff = c["resolved"]
-        if deff in self.keep:
-            return False
         u, cb = self.lookup(unit, deff)
-        if cb is None or cb["kind"] not in ("Fn", "AssocFn") or "impl_trait" in cb or cb.get("coroutine"):
+        sibling = False
+        if deff in self.keep:
+            # one method of a storage back end delegating to another method of the same back end (get_version_by_parent
+            # -> self.get_version(child)): the callee is spliced (so the caller's effects are complete) and stays a unit
+            sibling = (cb is not None and cb is not body and cb.get("impl_trait") and cb.get("impl_trait") == body.get("impl_trait")
+                       and cb.get("impl_self") == body.get("impl_self") and cb["impl_trait"].endswith("::storage::StorageTxn"))
+            if not sibling:
+                return False
+        if cb is None or cb["kind"] not in ("Fn", "AssocFn") or cb.get("coroutine"):
             return False
+        # (a trait impl method is spliced like any other function when the call resolves to it statically and it is not
+        # one of the pinned tree's functions: a new private extension trait, a private `impl From<..>` conversion)
         if cb is body or not self.norm(u, cb):
             return False
         if cb["arg_count"] != len(t["args"]):
@@ -372,7 +380,8 @@ class Normalizer:
         dest, target = t["dest"], t["target"]
         blk["term"] = {"k": "goto", "target": boff, "span": span, "inlined_call": deff}
         self.bind_returns(body, cb, off, boff, lambda ret, sp: [self.assign(copy.deepcopy(dest), self.use(self.mv(ret)), sp)], target)
-        self.inlined_fns.add((u, deff))
+        if not sibling:
+            self.inlined_fns.add((u, deff))
         self.notes.append("N1 %s spliced into %s" % (deff, body["def"]))
         return True
 
@@ -669,6 +678,96 @@ class Normalizer:
         self.notes.append("N5 %s desugared into a loop in %s" % (c.rsplit("::", 1)[-1], body["def"]))
         return True
 
+    # ------------------------------------------------------------------ N6: integer ranges as iterators
+    RANGE = "core::ops::range::Range"
+    REV = "core::iter::adapters::rev::Rev"
+
+    def _range_kind(self, ty):
+        """('fwd'|'rev', int type) for Range<int> / Rev<Range<int>>, else None."""
+        ty = ty.lstrip("&").replace("mut ", "", 1).strip()
+        if ty.startswith(self.RANGE + "<"):
+            ta = split_targs(ty)
+            return ("fwd", ta[0]) if ta and ta[0] in PRIMS else None
+        if ty.startswith(self.REV + "<"):
+            ta = split_targs(ty)
+            if ta and ta[0].startswith(self.RANGE + "<"):
+                tb = split_targs(ta[0])
+                return ("rev", tb[0]) if tb and tb[0] in PRIMS else None
+        return None
+
+    def try_range(self, body, bb):
+        """`for i in a..b` / `(a..b).rev()`: Range's iterator protocol written out (std's own definition): `rev()` builds
+        Rev{iter}, `into_iter()` is the identity, `next()` compares start < end and steps start up / end down by one.
+        With the constant propagation of the product analysis the loop is then unrolled like a hand-written counter."""
+        t = body["blocks"][bb]["term"]
+        c = t["callee"]
+        d = c.get("def")
+        if t.get("target") is None or not t["args"] or t["args"][0]["k"] == "const":
+            return False
+        st = c.get("self_ty") or ""
+        rk = self._range_kind(st)
+        if rk is None:
+            return False
+        span, dest, target = t["span"], t["dest"], t["target"]
+        blk = body["blocks"][bb]
+        if d == "core::iter::traits::iterator::Iterator::rev" and rk[0] == "fwd":
+            blk["stmts"].append(self.assign(copy.deepcopy(dest), {"k": "aggregate", "ak": "adt", "adt": self.REV, "variant": "Rev", "vi": 0,
+                                                                  "fields": ["iter"], "ops": [t["args"][0]]}, span))
+            blk["term"] = {"k": "goto", "target": target, "span": span, "desugared": d}
+            return True
+        if d == "core::iter::traits::collect::IntoIterator::into_iter":
+            blk["stmts"].append(self.assign(copy.deepcopy(dest), self.use(t["args"][0]), span))
+            blk["term"] = {"k": "goto", "target": target, "span": span, "desugared": d}
+            return True
+        if d != "core::iter::traits::iterator::Iterator::next":
+            return False
+        # the iterator variable behind the `&mut it` argument
+        a0 = t["args"][0]["p"]
+        if a0["proj"]:
+            return False
+        itp = None
+        cur, hops = a0["l"], 0
+        while hops < 6:
+            hops += 1
+            ds = self.defs_of(body, cur)
+            if len(ds) != 1 or ds[0][0] != "stmt":
+                break
+            rv = ds[0][2]["rv"]
+            if rv["k"] == "ref" and [e["k"] for e in rv["p"]["proj"]] == ["deref"]:
+                cur = rv["p"]["l"]            # a reborrow `&mut *r`
+                continue
+            if rv["k"] == "use" and rv["op"]["k"] in ("copy", "move") and not rv["op"]["p"]["proj"]:
+                cur = rv["op"]["p"]["l"]
+                continue
+            if rv["k"] == "ref" and all(e["k"] == "field" for e in rv["p"]["proj"]):
+                itp = rv["p"]
+            break
+        if itp is None:
+            return False
+        ity = rk[1]
+        rng_ty = "%s<%s>" % (self.RANGE, ity)
+        base = list(itp["proj"]) + ([{"k": "field", "i": 0, "ty": rng_ty, "name": "iter", "adt": self.REV}] if rk[0] == "rev" else [])
+        startp = {"l": itp["l"], "proj": base + [{"k": "field", "i": 0, "ty": ity, "name": "start", "adt": self.RANGE}], "ty": ity}
+        endp = {"l": itp["l"], "proj": base + [{"k": "field", "i": 1, "ty": ity, "name": "end", "adt": self.RANGE}], "ty": ity}
+        cnd = self.new_local(body, "bool", "start < end of desugared range next()")
+        v = self.new_local(body, ity, "value yielded by desugared range next()")
+        one = {"k": "const", "ty": ity, "val": 1}
+        if rk[0] == "fwd":
+            some_stmts = [self.assign(self.place(v, ity), self.use({"k": "copy", "p": copy.deepcopy(startp)}), span),
+                          self.assign(copy.deepcopy(startp), {"k": "binop", "op": "Add", "a": {"k": "copy", "p": self.place(v, ity)}, "b": one}, span)]
+        else:
+            some_stmts = [self.assign(self.place(v, ity), {"k": "binop", "op": "Sub", "a": {"k": "copy", "p": copy.deepcopy(endp)}, "b": one}, span),
+                          self.assign(copy.deepcopy(endp), self.use({"k": "copy", "p": self.place(v, ity)}), span)]
+        some_stmts.append(self.assign(copy.deepcopy(dest), self.agg(OPTION, "Some", [{"k": "copy", "p": self.place(v, ity)}]), span))
+        b_some = self.new_block(body, some_stmts, {"k": "goto", "target": target, "span": span})
+        b_none = self.new_block(body, [self.assign(copy.deepcopy(dest), self.agg(OPTION, "None", []), span)], {"k": "goto", "target": target, "span": span})
+        blk["stmts"].append(self.assign(self.place(cnd, "bool"), {"k": "binop", "op": "Lt", "a": {"k": "copy", "p": copy.deepcopy(startp)},
+                                                                  "b": {"k": "copy", "p": copy.deepcopy(endp)}}, span))
+        blk["term"] = {"k": "switch", "discr": self.mv(self.place(cnd, "bool")), "arms": [{"v": "0", "t": b_none}], "otherwise": b_some,
+                       "span": span, "desugared": "Range::next"}
+        self.notes.append("N6 range iteration written out in %s" % body["def"])
+        return True
+
     # ------------------------------------------------------------------ N4: the HashMap entry API
     def synth_call(self, body, deff, args, dest, target, span):
         callee = {"ty": "", "def": deff, "def_args": deff, "krate": deff.split("::")[0], "name": deff.rsplit("::", 1)[-1], "targs": [],
@@ -919,7 +1018,7 @@ class Normalizer:
                     self._unit = unit
                     if (self.try_inline_fn(unit, body, i) or self.try_combinator(unit, body, i) or self.try_transpose(body, i)
                             or self.try_poll(unit, body, i) or self.try_cmp(body, i) or self.try_entry(body, i)
-                            or self.try_iter_loop(unit, body, i)):
+                            or self.try_iter_loop(unit, body, i) or self.try_range(body, i)):
                         changed = True
                 i += 1
         self.busy.discard(key)
